@@ -99,5 +99,25 @@ def wfault : Handler := fun args impl =>
     | _, _, _ => bad "decode"
   | _ => bad "arity"
 
-def handlers : List (String × Handler) := [("rfault", rfault), ("rfaultt", rfaultt), ("sfault", sfault), ("wfault", wfault)]
+/-- `ioconv <cfg> <kind> <k> <hex doc> => <cat:iokind>|…` — `io::Error::from(serde_json::Error)`: the kind after conversion is the
+    injected kind for an Io error and the table `Gen.intoIoKind` (regenerated from error.rs) for the other categories -/
+def ioconv : Handler := fun args impl =>
+  match args with
+  | [_, kind, _, _] =>
+    let ofGen (c : Gen.Cat) : String := ((Gen.intoIoKind c).map fun bs => String.ofList (bs.map fun b => Char.ofNat b.toNat)).getD "?"
+    -- the model follows the table regenerated from error.rs; the specification is the documented contract
+    let modelKind (cat : String) : String := match cat with
+      | "io" => kind | "syntax" => ofGen .syntax | "data" => ofGen .data | "eof" => ofGen .eof | _ => "?"
+    let specKind (cat : String) : String := match cat with
+      | "io" => kind | "syntax" => "InvalidData" | "data" => "InvalidData" | "eof" => "UnexpectedEof" | _ => "?"
+    let judge (o : String) : String × List String :=
+      if o == "OK" then (o, []) else
+      match o.splitOn ":" with
+      | [cat, k] => (s!"{cat}:{modelKind cat}", if k == specKind cat then [] else [s!"C13 io::Error::from of a {cat} error has kind {k}, expected {specKind cat}"])
+      | _ => ("?", ["C13 ioconv: malformed observation"])
+    let rs := (impl.splitOn "|").map judge
+    { model := "|".intercalate (rs.map (·.1)), specs := (rs.map (·.2)).flatten }
+  | _ => bad "arity"
+
+def handlers : List (String × Handler) := [("rfault", rfault), ("rfaultt", rfaultt), ("sfault", sfault), ("wfault", wfault), ("ioconv", ioconv)]
 end SJ.Drv.C13
